@@ -11,14 +11,13 @@ Fortran's truncating division and integer power for integer trees, exact rationa
 A tree is 'integer' when all its leaves are integers; a rewrite that is only valid over the reals but is
 applied to an integer tree changes values and is a violation, as the statement says ("This includes
 integer division, which truncates toward zero").  For real trees an algebraically valid rewrite gives
-the identical rational, so no tolerance is involved (re-association rounding is *not* demanded).
+the identical rational (re-association rounding is *not* demanded); only where simplify itself computes
+with non-dyadic literals in double precision (0.5/1.5) a relative slack of 2**-40 is granted.
 
 Weaker readings taken: a valuation at which the original or the simplified tree is undefined is skipped;
 simplify() raising an exception is counted and reported as a note, not as a violation (no value was
 changed); a result containing nodes outside the harness alphabet cannot be judged and is counted.
 """
-import itertools
-
 from vf import exprgen as G
 from vf.explore import seeded_order
 
@@ -104,9 +103,23 @@ def compare(tvals, result):
             if rv == G.NOPARSE:
                 return 'unjudged'
             continue
-        if not G.same_value(tv, rv):
+        if not G.same_value(tv, rv) and not _close(tv, rv):
             return (val, tv, rv)
     return None
+
+
+def _close(a, b):
+    """Real values that are not dyadic rationals (1/3 ...) have no exact binary floating-point form:
+    simplify's own literal arithmetic in double precision (0.5/1.5 -> 0.3333333333333333) is then off
+    the exact rational by one rounding.  That is not a changed value in the sense of the statement;
+    a genuinely different value is off by far more than 2**-40 relative."""
+    from fractions import Fraction
+    if isinstance(a, bool) or isinstance(b, bool):
+        return False
+    if not (isinstance(a, Fraction) or isinstance(b, Fraction)):
+        return False
+    a, b = Fraction(a), Fraction(b)
+    return abs(a - b) <= Fraction(1, 2 ** 40) * max(abs(a), abs(b))
 
 
 def result_text(result, names):
@@ -244,20 +257,32 @@ def space(ctx):
             items += binary.exactly(T, 2)
         bound = dict(max_operator_nodes=2, two_operator_trees='binary nodes only', flag_subsets=7)
     else:
-        for n in (0, 1, 2):
+        for n in (0, 1):
             for T in 'irl':
                 items += full.exactly(T, n)
-        red3 = G.Enumerator(dict(_CFG, forms=('plain',), arities=(2,), cmp_types=('i',),
-                                 int_lits=(-3,), real_lits=('0.5',), log_lits=(True,)))
-        n3 = 0
+        red = dict(int_lits=(-3,), real_lits=('0.5',), log_lits=(True,))
+        binary = G.Enumerator(dict(_CFG, arities=(2,)))
+        redE = G.Enumerator(dict(_CFG, **red))
+        seen = set()
+        n2 = 0
         for T in 'irl':
+            for t in binary.exactly(T, 2) + redE.exactly(T, 2):
+                k = G.key(t)
+                if k not in seen:
+                    seen.add(k)
+                    items.append(t)
+                    n2 += 1
+        red3 = G.Enumerator(dict(_CFG, forms=('plain',), arities=(2,), **red))
+        n3 = 0
+        for T in 'ir':
             ts = red3.exactly(T, 3)
             n3 += len(ts)
             items += ts
-        bound = dict(max_operator_nodes=2, two_operator_trees='2- and 3-child nodes', flag_subsets=32,
+        bound = dict(max_operator_nodes=2, flag_subsets=32, two_operator_trees=n2,
+                     two_operator_alphabet='binary nodes on the full alphabet + 2-3 child nodes on 2 variables + 1 literal '
+                                           'per type (int -3, real 0.5, .true.)',
                      three_operator_trees=n3,
-                     three_operator_alphabet='2 variables + 1 literal per type (int -3, real 0.5, .true.), plain binary '
-                                             'nodes + unary minus, integer comparisons')
+                     three_operator_alphabet='integer and real trees, 2 variables + 1 literal, plain binary nodes + unary minus')
     bound.update(leaves='2 variables + 2 literals per type (int 2, -3; real 0.5, 2.0; logical both)',
                  forms='plain + Parenthesised*', flags=list(FLAGS))
     return items, bound
